@@ -81,7 +81,10 @@ def run(ctx):
         items = [{"op": "parse", "lines": d["lines"], "tags": True} for d in ds]
         for i in range(0, len(items), 200):
             specs.append({"driver": "diagram", "world": None, "items": items[i:i + 200]})
-    pool = ["alpha", "beta", "gamma", "delta", "eps", "zeta", "a", "ab", "a_b", "M_1"]
+    # (the last names begin with words of the PlantUML language: a component is recognised by the form of its line,
+    # never by what its name happens to start with)
+    pool = ["alpha", "beta", "gamma", "delta", "eps", "zeta", "a", "ab", "a_b", "M_1",
+            "notes", "notebook", "ends", "components", "packages", "as1", "titles", "up", "enduml2"]
     n_rand = 1500 if ctx.quick else 40000
     items = []
     pres = ["", "title page\n", "[x] --> [y]\ncomponent z\n", "' a comment\n\n"]
